@@ -21,6 +21,32 @@ template <> struct Tok<std::string> {
   static std::string show(const std::string &v) { return "s" + v; }
 };
 
+// parameter payload whose operator== is coarser than identity (compares the key only): a second set with an
+// "equal" but different value must still store the new value
+struct KeyRec { int key; int note; bool operator==(const KeyRec &o) const { return key == o.key; } };
+static KeyRec mkKey(int v) { KeyRec r; r.key = v / 4; r.note = v; return r; }
+
+// key type whose copies can be made to throw (FlatMap must not be left with a phantom entry by a failed insertion)
+struct TKey {
+  int v;
+  static bool armed;
+  TKey() : v(0) {}
+  explicit TKey(int x) : v(x) {}
+  TKey(const TKey &o) : v(o.v) { if (armed) throw std::runtime_error("key copy"); }
+  TKey(TKey &&o) noexcept : v(o.v) {}
+  TKey &operator=(const TKey &o) { if (armed) throw std::runtime_error("key copy"); v = o.v; return *this; }
+  TKey &operator=(TKey &&o) noexcept { v = o.v; return *this; }
+  bool operator==(const TKey &o) const { return v == o.v; }
+  bool operator!=(const TKey &o) const { return v != o.v; }
+};
+bool TKey::armed = false;
+template <> struct Tok<TKey> {
+  static TKey parse(const std::string &s) { return TKey(std::stoi(s)); }
+  static std::string show(const TKey &k) { return std::to_string(k.v); }
+};
+template <typename K> struct Arm { static void set(bool) {} static bool can() { return false; } };
+template <> struct Arm<TKey> { static void set(bool b) { TKey::armed = b; } static bool can() { return true; } };
+
 struct PO : public utility::ParameterizedObject {
   std::string dump()
   {
@@ -34,6 +60,7 @@ struct PO : public utility::ParameterizedObject {
       else if (prm.data.is<bool>()) { t = "bool"; v = prm.data.get<bool>() ? "1" : "0"; }
       else if (prm.data.is<long>()) { t = "long"; v = std::to_string(prm.data.get<long>()); }
       else if (prm.data.is<math::vec3f>()) { t = "vec3f"; v = std::to_string((long long)prm.data.get<math::vec3f>().y); }
+      else if (prm.data.is<KeyRec>()) { t = "key"; v = std::to_string(prm.data.get<KeyRec>().note); }
       if (!out.empty()) out += ",";
       out += prm.name + ":" + t + ":" + v + ":" + (prm.query ? "1" : "0");
     }
@@ -50,6 +77,7 @@ static void pset(PO &po, const std::string &n, const std::string &t, const std::
   else if (t == "bool") po.setParam<bool>(n, v != "0");
   else if (t == "long") po.setParam<long>(n, std::stol(v));
   else if (t == "vec3f") po.setParam<math::vec3f>(n, math::vec3f(0.f, (float)std::stoi(v), 1.f));
+  else if (t == "key") po.setParam<KeyRec>(n, mkKey(std::stoi(v)));
   else throw std::runtime_error("bad type");
 }
 static std::string pget(PO &po, const std::string &n, const std::string &t, const std::string &d)
@@ -60,6 +88,7 @@ static std::string pget(PO &po, const std::string &n, const std::string &t, cons
   if (t == "bool") return po.getParam<bool>(n, d != "0") ? "1" : "0";
   if (t == "long") return std::to_string(po.getParam<long>(n, std::stol(d)));
   if (t == "vec3f") return std::to_string((long long)po.getParam<math::vec3f>(n, math::vec3f(0.f, (float)std::stoi(d), 1.f)).y);
+  if (t == "key") return std::to_string(po.getParam<KeyRec>(n, mkKey(std::stoi(d))).note);
   throw std::runtime_error("bad type");
 }
 
@@ -78,6 +107,22 @@ int runTyped()
         if (op == "fm_new") { fm.reset(new FM); return "ok"; }
         if (op == "set") { (*fm)[Tok<K>::parse(w[1])] = Tok<V>::parse(w[2]); return "ok"; }
         if (op == "idx") { return Tok<V>::show((*fm)[Tok<K>::parse(w[1])]); }
+        if (op == "set_throw") {
+          // insertion of a new key while every copy of a key throws: the exception must leave the map as it was
+          if (!Arm<K>::can()) return "bad-op";
+          K key = Tok<K>::parse(w[1]);
+          if (cfm.contains(key)) return "present";
+          std::string before;
+          for (auto it = cfm.begin(); it != cfm.end(); ++it) before += showItem(*it) + ",";
+          bool threw = false;
+          Arm<K>::set(true);
+          try { (*fm)[key] = Tok<V>::parse(w[2]); } catch (const std::runtime_error &) { threw = true; }
+          Arm<K>::set(false);
+          std::string after;
+          for (auto it = cfm.begin(); it != cfm.end(); ++it) after += showItem(*it) + ",";
+          if (!threw) return "nothrow " + after;
+          return after == before ? "throw unchanged" : "throw changed " + after;
+        }
         if (op == "at") {
           try { return Tok<V>::show(cfm.at(Tok<K>::parse(w[1]))); } catch (const std::out_of_range &) { return "throw"; }
         }
@@ -124,5 +169,6 @@ int main(int argc, char **argv)
   if (mode == "ss") return runTyped<std::string, std::string>();
   if (mode == "si") return runTyped<std::string, int>();
   if (mode == "is") return runTyped<int, std::string>();
+  if (mode == "ti") return runTyped<TKey, int>();
   return 2;
 }
